@@ -20,7 +20,7 @@ VARIABLES alg, nmodes, ref       \* ref: [set |-> BOOLEAN, iters |-> Int]
 pvars == <<alg, nmodes, ref>>
 
 Algs == {"cp_als", "cp_apr_mu", "cp_apr_pdnr", "cp_apr_pqnr", "hosvd", "tucker_als", "gcp_lbfgsb"}
-Base(N) == [holder |-> "dense", printitn |-> 0, seed |-> 0, scale |-> <<1, 1>>, perm |-> IdPerm0(N), start |-> "given"]
+Base(N) == [holder |-> "dense", printitn |-> 0, seed |-> 0, scale |-> <<1, 1>>, perm |-> IdPerm0(N), start |-> "given", dtype |-> "float"]
 
 \* which presentations an algorithm admits (the statement's scope)
 Admissible(a, N, p) ==
@@ -30,6 +30,8 @@ Admissible(a, N, p) ==
   /\ p.scale # <<1, 1>> => a \in {"cp_als", "hosvd", "tucker_als"}        \* "scales the CP or Tucker model"
   /\ p.perm # IdPerm0(N) => a \in {"cp_als", "hosvd", "tucker_als"} /\ p.start = "given"  \* algorithms with a mode order
   /\ p.start \in {"given", "random"} /\ (p.start = "random" => a # "hosvd")
+  \* element type of the (integer-valued) data: float64 or int64 storage
+  /\ p.dtype \in {"float", "int"} /\ (p.dtype = "int" => p.scale = <<1, 1>>)
 
 \* the coordinates in which p differs from the base presentation
 Coord(p, N) ==
@@ -37,6 +39,7 @@ Coord(p, N) ==
   IF p.holder # b.holder THEN "representation"
   ELSE IF p.scale # b.scale THEN "scale"
   ELSE IF p.perm # b.perm THEN "mode-relabelling"
+  ELSE IF p.dtype # b.dtype THEN "element-type"
   ELSE IF p.printitn # b.printitn THEN "printing"
   ELSE "rerun-with-the-same-seed"
 
